@@ -31,6 +31,10 @@ type Obligation struct {
 	Detail    string   `json:"detail,omitempty"`
 	Facts     []string `json:"facts,omitempty"`
 	Path      []string `json:"path,omitempty"`
+	// Signature identifies HOW a guard obligation is violated (the offending valuations projected on the
+	// rule's atoms). A known finding may pin it, so that a different violation of the same construct is
+	// still reported.
+	Signature string `json:"signature,omitempty"`
 }
 
 // Rule is a named check.
@@ -59,10 +63,11 @@ type Finding struct {
 	Props     map[string]bool
 	Rule      string
 	Construct string
+	Signature string // optional
 	What      string
 }
 
-var findingRe = regexp.MustCompile(`^finding:\s+property=(\S+)\s+rule=(\S+)\s+construct="([^"]*)"\s+::\s*(.*)$`)
+var findingRe = regexp.MustCompile(`^finding:\s+property=(\S+)\s+rule=(\S+)\s+construct="([^"]*)"(?:\s+signature="([^"]*)")?\s+::\s*(.*)$`)
 
 // LoadFindings parses the committed known-findings file. "fixed:" lines suppress nothing.
 func LoadFindings(path string) ([]Finding, error) {
@@ -86,7 +91,7 @@ func LoadFindings(path string) ([]Finding, error) {
 		if m == nil {
 			return nil, fmt.Errorf("malformed finding line: %s", line)
 		}
-		fd := Finding{Props: map[string]bool{}, Rule: m[2], Construct: m[3], What: m[4]}
+		fd := Finding{Props: map[string]bool{}, Rule: m[2], Construct: m[3], Signature: m[4], What: m[5]}
 		for _, p := range strings.Split(m[1], ",") {
 			fd.Props[p] = true
 		}
@@ -123,6 +128,10 @@ func RunRules(p *Program, property string, rules []*Rule, findings []Finding, re
 			if o.Verdict == Violated {
 				for k, fd := range findings {
 					if fd.Rule == o.Rule && fd.Construct == o.Construct && (fd.Props[property] || property == "*") {
+						if fd.Signature != "" && fd.Signature != o.Signature {
+							o.Detail = strings.TrimSpace(o.Detail + " [a finding is recorded for this construct, but it is violated in a DIFFERENT way now: recorded {" + fd.Signature + "}, found {" + o.Signature + "}]")
+							continue
+						}
 						o.Verdict = Known
 						o.Detail = strings.TrimSpace(o.Detail + " [known finding: " + fd.What + "]")
 						usedFinding[k] = true
